@@ -174,6 +174,13 @@ def fixtures():
         ("simple_dark_current", "CCD", nothing, cg + "simple_dark_current", {"dark_rate": 20.0}),
         ("dark_current", "CCD", nothing, cg + "dark_current", {"_temperature": 300.0, "figure_of_merit": 1.0, "spatial_noise_factor": 0.1, "band_gap": 1.12, "band_gap_room_temperature": 1.12, "temporal_noise": True}),
         ("dark_current_rule07", "CMOS", nothing, cg + "dark_current_rule07", {"cutoff_wavelength": 2.5, "spatial_noise_factor": 0.1, "temporal_noise": True}),
+        # every combination of the options that switch a draw on or off: each draw of each combination must be seeded
+        ("dark_current/spatial-only", "CCD", nothing, cg + "dark_current", {"_temperature": 300.0, "figure_of_merit": 1.0, "spatial_noise_factor": 0.1, "band_gap": 1.12, "band_gap_room_temperature": 1.12, "temporal_noise": False}),
+        ("dark_current/temporal-only", "CCD", nothing, cg + "dark_current", {"_temperature": 300.0, "figure_of_merit": 1.0, "band_gap": 1.12, "band_gap_room_temperature": 1.12, "temporal_noise": True}),
+        ("dark_current_rule07/spatial-only", "CMOS", nothing, cg + "dark_current_rule07", {"cutoff_wavelength": 2.5, "spatial_noise_factor": 0.1, "temporal_noise": False}),
+        ("dark_current_rule07/temporal-only", "CMOS", nothing, cg + "dark_current_rule07", {"cutoff_wavelength": 2.5, "temporal_noise": True}),
+        ("radiation_induced_dark_current/no-shot-noise", "CCD", nothing, cg + "radiation_induced_dark_current", {"_temperature": 300.0, "depletion_volume": 64.0, "annealing_time": 0.1, "displacement_dose": 50.0, "shot_noise": False}),
+        ("simple_conversion/no-sampling", "CCD", photon, cg + "simple_conversion", {"quantum_efficiency": 0.7, "binomial_sampling": False}),
         ("dark_current_saphira", "APD", nothing, cg + "dark_current_saphira", {"_temperature": 60.0}),
         ("radiation_induced_dark_current", "CCD", nothing, cg + "radiation_induced_dark_current", {"_temperature": 300.0, "depletion_volume": 64.0, "annealing_time": 0.1, "displacement_dose": 50.0, "shot_noise": True}),
         ("fixed_pattern_noise", "CCD", pixel, cc + "fixed_pattern_noise", {"fixed_pattern_noise_factor": 0.05}),
@@ -338,13 +345,27 @@ def run_mode_case(case, prior):
             elif kind == "deprecated-observation":
                 import pyxel
 
-                mode = Observation(
-                    parameters=[ParameterValues(key="pipeline.photon_collection.f.arguments.level", values=case["levels"])],
-                    readout=Readout(times=case["times"], non_destructive=case["nd"]),
-                    pipeline_seed=case["pseed"], with_dask=case["dask"], mode="product",
-                )
+                omode = case.get("omode", "product")
+                if omode == "custom":
+                    tbl = os.path.join(td, "table.txt")
+                    with open(tbl, "w") as fh:
+                        for lv in case["levels"]:
+                            fh.write(f"{lv} {2.0}\n")
+                    mode = Observation(
+                        parameters=[ParameterValues(key="pipeline.photon_collection.f.arguments.level", values="_"),
+                                    ParameterValues(key="pipeline.readout_electronics.n.arguments.scale", values="_")],
+                        readout=Readout(times=case["times"], non_destructive=case["nd"]),
+                        pipeline_seed=case["pseed"], with_dask=case["dask"], mode="custom", from_file=tbl, column_range=(0, 2),
+                    )
+                else:
+                    pars = [ParameterValues(key="pipeline.photon_collection.f.arguments.level", values=case["levels"])]
+                    if omode == "sequential":
+                        pars.append(ParameterValues(key="pipeline.readout_electronics.n.arguments.scale", values=[1.0, 3.0]))
+                    mode = Observation(parameters=pars, readout=Readout(times=case["times"], non_destructive=case["nd"]),
+                                       pipeline_seed=case["pseed"], with_dask=case["dask"], mode=omode)
                 r = pyxel.observation_mode(mode, det, pipe)
-                res = xr.DataTree.from_dict({"/r": r.dataset.load() if hasattr(r.dataset, "load") else r.dataset})
+                dsets = r.dataset if isinstance(r.dataset, dict) else {"r": r.dataset}  # sequential mode: one dataset per parameter
+                res = xr.DataTree.from_dict({"/" + str(k).replace("/", "_").replace(".", "_"): (v.load() if hasattr(v, "load") else v) for k, v in dsets.items()})
             elif kind == "deprecated-calibration":
                 import pyxel
                 from pyxel.calibration import Algorithm, Calibration
@@ -561,6 +582,8 @@ def body(ck: common.Check):
         # the deprecated, still exported entry points (pyxel.exposure_mode / observation_mode / calibration_mode)
         {"mode": "deprecated-exposure", "pseed": 7, "times": [1.0, 2.0], "nd": False, "own_seed": None},
         {"mode": "deprecated-observation", "pseed": 7, "times": [1.0], "nd": False, "own_seed": None, "levels": [10.0, 20.0], "dask": False},
+        {"mode": "deprecated-observation", "pseed": 7, "times": [1.0], "nd": False, "own_seed": None, "levels": [10.0, 20.0], "dask": False, "omode": "sequential"},
+        {"mode": "deprecated-observation", "pseed": 7, "times": [1.0], "nd": False, "own_seed": None, "levels": [10.0, 20.0], "dask": False, "omode": "custom"},
         {"mode": "deprecated-calibration", "pseed": 7, "times": [1.0], "nd": False, "own_seed": None, "gseed": 123},
     ]
     for k in range(ncases + len(directed)):
